@@ -20,8 +20,14 @@ pub fn export(db: &DbIndex) -> Index {
 fn export_modules(db: &DbIndex) -> Vec<Module> {
     let type_index = db.get_type_index();
     let module_index = db.get_module_index();
-    let modules = module_index.get_module_infos();
+    let mut modules = module_index.get_module_infos();
     let vfs = db.get_vfs();
+    // the index is a hash map (unspecified iteration order): order by module name, then file id
+    modules.sort_by(|a, b| {
+        a.full_module_name
+            .cmp(&b.full_module_name)
+            .then(a.file_id.id.cmp(&b.file_id.id))
+    });
 
     modules
         .into_iter()
@@ -67,7 +73,13 @@ fn export_modules(db: &DbIndex) -> Vec<Module> {
 fn export_types(db: &DbIndex) -> Vec<Type> {
     let type_index = db.get_type_index();
     let module_index = db.get_module_index();
-    let types = type_index.get_all_types();
+    let mut types = type_index.get_all_types();
+    // the index is a hash map (unspecified iteration order): order by full name, then declaration id
+    types.sort_by(|a, b| {
+        a.get_full_name()
+            .cmp(b.get_full_name())
+            .then(a.get_id().cmp(&b.get_id()))
+    });
 
     types
         .into_iter()
@@ -96,7 +108,14 @@ fn export_globals(db: &DbIndex) -> Vec<Global> {
     let module_index = db.get_module_index();
     let type_index = db.get_type_index();
     let vfs = db.get_vfs();
-    let globals = global_index.get_all_global_decl_ids();
+    let mut globals = global_index.get_all_global_decl_ids();
+    // the index is a hash map (unspecified iteration order): order by file id, then position
+    globals.sort_by(|a, b| {
+        a.file_id
+            .id
+            .cmp(&b.file_id.id)
+            .then(a.position.cmp(&b.position))
+    });
 
     globals
         .into_iter()
